@@ -136,138 +136,8 @@ theorem depthCalls_tie :
     (∀ d : Int, arg3 d = d - 1 ∧ arg4 d = d - 1 ∧ arg5 d = d - 1 ∧ arg8 d = d - 1 ∧ arg14 d = d - 1 ∧ arg15 d = d - 1) :=
   ⟨argSites_tie, callLits_tie, args_same_sem, args_minus1_sem⟩
 
-/-- Every result channel of package `check` that a goroutine sends on after its
-    receiver may have stopped listening has capacity 1 (C15). -/
-def expectedChanSites : List (String × String × String) := [
-  ("internal/check/engine.go", "Engine.CheckRelationTuple", "1"),
-  ("internal/check/rewrites.go", "Engine.checkInverted", "1"),
-  ("internal/check/binop.go", "or", "1"),
-  ("internal/check/binop.go", "and", "1"),
-  ("internal/check/checkgroup/definitions.go", "WithEdge", "1"),
-  ("internal/check/checkgroup/concurrent_checkgroup.go", "NewConcurrent", "0"),
-  ("internal/check/checkgroup/concurrent_checkgroup.go", "NewConcurrent", "0"),
-  ("internal/check/checkgroup/concurrent_checkgroup.go", "NewConcurrent", "0"),
-  ("internal/check/checkgroup/concurrent_checkgroup.go", "NewConcurrent", "1"),
-  ("internal/check/checkgroup/concurrent_checkgroup.go", "concurrentCheckgroup.startConsumer", "1")
-]
-
-theorem chanSites_tie : chanSites = expectedChanSites := by decide
 
 theorem defaultPageSize_pos : 0 < defaultPageSize := by decide
 theorem chunk_sizes_pos : 0 < chunkSizeInsertTuple ∧ 0 < chunkSizeDeleteTuple ∧ 0 < chunkSizeInsertUUIDMappings := by decide
-
-end Keto.FactsTie
-
-namespace Keto.FactsTie
-open Keto.Facts
-
-/-- Registry members that request goroutines obtain through lazy getters. -/
-def requestPathGetters : List String := ["Tracer", "Writer", "Mapper", "ReadOnlyMapper", "PermissionEngine", "ExpandEngine"]
-
-/-- Every such member is created in `RegistryDefault.Init`, which runs once before any
-    request is served (repair 727229a), so request goroutines only read it. -/
-theorem prewarm_tie :
-    requestPathGetters.all (fun g =>
-      initCalls.contains ("internal/driver/registry_default.go", "RegistryDefault.Init", g)) = true := by decide
-
-/-- The unguarded lazy getters of the registry are exactly the known ones (a new lazy
-    member must be added to `requestPathGetters` or shown to be startup-only). -/
-def expectedLazyInit : List (String × String × String) := [
-  ("RegistryDefault.Mapper", "r.mapper", "unguarded"),
-  ("RegistryDefault.ReadOnlyMapper", "r.readOnlyMapper", "unguarded"),
-  ("RegistryDefault.HealthServer", "r.healthServer", "unguarded"),
-  ("RegistryDefault.Tracer", "r.tracer", "unguarded"),
-  ("RegistryDefault.MetricsHandler", "r.metricsHandler", "unguarded"),
-  ("RegistryDefault.PrometheusManager", "r.pmm", "unguarded"),
-  ("RegistryDefault.Logger", "r.l", "unguarded"),
-  ("RegistryDefault.Writer", "r.w", "unguarded"),
-  ("RegistryDefault.PermissionEngine", "r.ce", "unguarded"),
-  ("RegistryDefault.ExpandEngine", "r.ee", "unguarded"),
-  ("RegistryDefault.MigrationBox", "r.mb", "unguarded"),
-  ("Config.NamespaceManager", "k.nm", "guarded")
-]
-
-theorem lazyInit_tie : lazyInit = expectedLazyInit := by decide
-
-/-- Locking discipline of the shared mutable state that requests touch: the namespace
-    managers swap their map under the write lock and read it under the read lock (so a
-    reader sees the map before or after a complete `set`, C19), the visited set locks
-    around check-and-add. -/
-def expectedLockUse : List (String × String × String) := [
-  ("internal/driver/config/namespace_memory.go", "memoryNamespaceManager.GetNamespaceByName", "RLock"),
-  ("internal/driver/config/namespace_memory.go", "memoryNamespaceManager.GetNamespaceByConfigID", "RLock"),
-  ("internal/driver/config/namespace_memory.go", "memoryNamespaceManager.Namespaces", "RLock"),
-  ("internal/driver/config/namespace_memory.go", "memoryNamespaceManager.ShouldReload", "RLock"),
-  ("internal/driver/config/namespace_memory.go", "memoryNamespaceManager.set", "Lock"),
-  ("internal/driver/config/namespace_watcher.go", "NamespaceWatcher.handleRemove", "Lock"),
-  ("internal/driver/config/namespace_watcher.go", "NamespaceWatcher.handleChange", "Lock"),
-  ("internal/driver/config/namespace_watcher.go", "NamespaceWatcher.handleError", "none"),
-  ("internal/driver/config/namespace_watcher.go", "NamespaceWatcher.readNamespaceFile", "none"),
-  ("internal/driver/config/namespace_watcher.go", "NamespaceWatcher.GetNamespaceByName", "RLock"),
-  ("internal/driver/config/namespace_watcher.go", "NamespaceWatcher.GetNamespaceByConfigID", "RLock"),
-  ("internal/driver/config/namespace_watcher.go", "NamespaceWatcher.Namespaces", "RLock"),
-  ("internal/driver/config/namespace_watcher.go", "NamespaceWatcher.NamespaceFiles", "RLock"),
-  ("internal/driver/config/namespace_watcher.go", "NamespaceWatcher.ShouldReload", "none"),
-  ("internal/driver/config/opl_config_namespace_watcher.go", "oplConfigWatcher.ShouldReload", "none"),
-  ("internal/driver/config/opl_config_namespace_watcher.go", "oplConfigWatcher.handleChange", "Lock"),
-  ("internal/driver/config/opl_config_namespace_watcher.go", "oplConfigWatcher.handleRemove", "Lock"),
-  ("internal/driver/config/opl_config_namespace_watcher.go", "oplConfigWatcher.handleError", "none"),
-  ("internal/driver/config/opl_config_namespace_watcher.go", "oplConfigWatcher.parseFiles", "none"),
-  ("internal/x/graph/graph_utils.go", "stringSet.addNoDuplicate", "Lock")
-]
-
-theorem lockUse_tie : lockUse = expectedLockUse := by decide
-
-/-- The whole-batch rejection of both batch entry points tests `len(tuples) > max` (strictly). -/
-def expectedBatchGuards : List (String × String × String) := [
-  ("internal/check/handler.go", "Handler.doBatchCheck", ">"),
-  ("internal/check/handler.go", "Handler.BatchCheck", ">")]
-
-theorem batchGuards_tie : batchGuards = expectedBatchGuards := by decide
-
-end Keto.FactsTie
-
-namespace Keto.FactsTie
-open Keto.Facts
-
-/-- How the storage operations used by a check fetch their rows: through pop's
-    `All` / `Exists` (which surface every driver error, including one raised while
-    rows are being fetched), never through a hand-written row loop. The engine model
-    treats a storage operation as one call that either fails or returns all rows; a
-    storage operation that iterates rows itself would have to show that it reports
-    iteration errors (C03). -/
-def readCallShapes : List (String × String × String) :=
-  sqlStrings.filter fun r =>
-    (r.2.1 == "Traverser.TraverseSubjectSetExpansion" || r.2.1 == "Traverser.TraverseSubjectSetRewrite" ||
-     r.2.1 == "Persister.GetRelationTuples" || r.2.1 == "Persister.ExistsRelationTuples") && r.2.2.startsWith "call:"
-
-def expectedReadCallShapes : List (String × String × String) := [
-  ("internal/persistence/sql/relationtuples.go", "Persister.GetRelationTuples", "call:queryWithNetwork"),
-  ("internal/persistence/sql/relationtuples.go", "Persister.GetRelationTuples", "call:All"),
-  ("internal/persistence/sql/relationtuples.go", "Persister.ExistsRelationTuples", "call:queryWithNetwork"),
-  ("internal/persistence/sql/relationtuples.go", "Persister.ExistsRelationTuples", "call:Exists"),
-  ("internal/persistence/sql/traverser.go", "Traverser.TraverseSubjectSetExpansion", "call:All"),
-  ("internal/persistence/sql/traverser.go", "Traverser.TraverseSubjectSetExpansion", "call:RawQuery"),
-  ("internal/persistence/sql/traverser.go", "Traverser.TraverseSubjectSetRewrite", "call:queryWithNetwork"),
-  ("internal/persistence/sql/traverser.go", "Traverser.TraverseSubjectSetRewrite", "call:All")
-]
-
-theorem readCallShapes_tie : (readCallShapes == expectedReadCallShapes) = true := by decide +kernel
-
-end Keto.FactsTie
-
-namespace Keto.FactsTie
-open Keto.Facts
-
-/-- Every raw SQL statement on `keto_relation_tuples` restricts each occurrence of the
-    table to the network id (or, for INSERT, writes the nid column): C06. The verdicts
-    are computed by the fact translator from the string literals of the sources. -/
-def expectedSqlNid : List (String × String × String) := [
-  ("internal/persistence/sql/relationtuples.go", "buildDelete", "nid-predicates:1/tables:1"),
-  ("internal/persistence/sql/relationtuples.go", "buildInsert", "insert-writes-nid"),
-  ("internal/persistence/sql/traverser.go", "Traverser.TraverseSubjectSetExpansion", "nid-predicates:2/tables:2")
-]
-
-theorem sqlNid_tie : (sqlNid == expectedSqlNid) = true := by decide +kernel
 
 end Keto.FactsTie
